@@ -495,7 +495,10 @@ func (pc *ProviderCache) fetchMissing(ctx context.Context, pid peer.ID) (*readPr
 				continue
 			}
 			log.Errorw("Cannot fetch provider info", "err", err, "source", src)
-			if errors.Is(err, context.Canceled) {
+			// The caller's context has ended, by cancellation or by its
+			// deadline: this says nothing about the provider, so no
+			// negative entry is cached.
+			if ctx.Err() != nil {
 				return nil, ctx.Err()
 			}
 			continue
